@@ -99,15 +99,41 @@ theorem after_close_worker (fixed : Bool) (sid : Nat) (cs cs' : List Choice) :
   refine ⟨fun h => exited_run fixed _ cs' h, fun hc hs => ?_⟩
   simp [step, hs, hc]
 
-/-- **after_close, Read — for `Read` with the close check (`fixed = true`)**: from the moment
-    `Close` has taken effect, a `Read` that is called fails and delivers nothing. -/
-theorem after_close_read_fixed (sid : Nat) (cs cs' : List Choice) (n : Nat)
-    (hc : (run true (init sid) cs).closed = true)
-    (hidle : (run true (run true (init sid) cs) cs').rd = .idle) :
-    let s := run true (run true (init sid) cs) cs'
+private theorem read_fixed (s : State) (n : Nat) (hcl : s.closed = true) (hr : s.rd = .idle) :
     (step true s (.readCall n)).out = .rFail :: s.out ∧ (step true s (.readCall n)).readOut = s.readOut := by
-  have hcl := closed_run true _ cs' hc
-  simp only [step, stepReadCall, hidle, hcl, Bool.and_self, ↓reduceIte, say, and_self]
+  simp only [step, stepReadCall, hr, hcl, Bool.and_self, ↓reduceIte, say, and_self]
+
+/-- **after_close, Read** (the code under test, `step codeFixed`): from the moment `Close` has
+    taken effect, a `Read` that is called fails and delivers nothing — whatever is still queued
+    or left in the carry-over buffer. -/
+theorem after_close_read (sid : Nat) (cs cs' : List Choice) (n : Nat)
+    (hc : (run codeFixed (init sid) cs).closed = true)
+    (hidle : (run codeFixed (run codeFixed (init sid) cs) cs').rd = .idle) :
+    let s := run codeFixed (run codeFixed (init sid) cs) cs'
+    (step codeFixed s (.readCall n)).out = .rFail :: s.out ∧
+      (step codeFixed s (.readCall n)).readOut = s.readOut := by
+  exact read_fixed _ n (closed_run codeFixed _ cs' hc) hidle
+
+/-- **after_close**: Write, Read and the worker together, for the code under test. -/
+theorem after_close (sid : Nat) (cs cs' : List Choice) (b : Bytes) (n : Nat)
+    (hc : (run codeFixed (init sid) cs).closed = true) :
+    let s := run codeFixed (run codeFixed (init sid) cs) cs'
+    s.closed = true ∧
+    (s.wr = .idle → (step codeFixed s (.writeCall b)).out = .wFail :: s.out) ∧
+    (s.rd = .idle → (step codeFixed s (.readCall n)).out = .rFail :: s.out) ∧
+    (exited s = true → ∀ cs'', (run codeFixed s cs'').reqs = s.reqs) ∧
+    (s.wpc = .sel → (step codeFixed s .wClose).wpc = .x1) := by
+  have hcl := closed_run codeFixed _ cs' hc
+  refine ⟨hcl, fun hw => ?_, fun hr => ?_, fun he cs'' => (exited_run codeFixed _ cs'' he).2, fun hs => ?_⟩
+  · simp only [step, stepWriteCall, hw, hcl, ↓reduceIte, say]
+  · exact (read_fixed _ n hcl hr).1
+  · simp [step, hs, hcl]
+
+/-- a session that is closed with a response still queued: the post-close Write and Read fail -/
+example :
+    let s := run codeFixed (init 3) [.wTimer, .wStep, .sOk [1, 2, 3], .wStep, .wStep, .close]
+    s.closed = true ∧ s.rdQ = [[1, 2, 3]] ∧ s.wr = .idle ∧ s.rd = .idle ∧ s.wpc = .sel := by
+  decide
 
 /-- **F7, the defect of the released `Read`** (`fixed = false`): a response arrives, the
     application closes the connection, `Close` returns — and the next `Read` still returns the
